@@ -124,6 +124,9 @@ class Repo:
                         for t in sub.targets:
                             if isinstance(t, ast.Name):
                                 ci.class_attrs[t.id] = sub.value
+                                # `__rmul__ = __mul__` in the class body: the same method under two names
+                                if isinstance(sub.value, ast.Name) and sub.value.id in ci.methods:
+                                    ci.methods[t.id] = ci.methods[sub.value.id]
                     elif isinstance(sub, ast.AnnAssign) and isinstance(sub.target, ast.Name):
                         ci.class_attrs[sub.target.id] = sub.value
             elif isinstance(node, (ast.FunctionDef, ast.AsyncFunctionDef)):
@@ -159,15 +162,28 @@ class Repo:
     def _inline_helpers(self):
         """Replace calls to private helpers by their bodies (see rsx/inline.py) and mark helpers
         that no longer have any un-inlined reference as absorbed."""
-        from .inline import Inliner, desugar
+        from .inline import Inliner, desugar, SuperCalls
+        from .normalize import normalize_function
         inl = Inliner(self)
         funcs = list(self.all_functions(include_absorbed=True))
         self.desugared = []
+        self.normalized = []
         for fi in funcs:
-            node, ch = desugar(fi.raw_node)
+            node, ch = desugar(fi.raw_node, self.modules[fi.module].globals_assigned)
             if ch:
                 fi.node = fi.raw_node = node
                 self.desugared.append(fi.fq)
+            node, ch = normalize_function(fi.raw_node, self._sig_resolver(fi))
+            if ch:
+                fi.node = fi.raw_node = node
+                self.normalized.append(fi.fq)
+            if fi.cls is not None and fi.cls.bases:
+                import copy as _copy
+                sc = SuperCalls(self, fi)
+                node = sc.visit(_copy.deepcopy(fi.raw_node))
+                if sc.changed:
+                    ast.fix_missing_locations(node)
+                    fi.node = fi.raw_node = node
         expanded = {}
         for fi in funcs:
             try:
@@ -178,7 +194,10 @@ class Repo:
                 expanded[fi.fq] = node
         for fi in funcs:
             if fi.fq in expanded:
-                fi.node = expanded[fi.fq]
+                # the spliced bodies introduce new aliases / named conditions: normalise again
+                node, _ch = desugar(expanded[fi.fq], self.modules[fi.module].globals_assigned)
+                node, _ch = normalize_function(node, self._sig_resolver(fi))
+                fi.node = node
         self.inlined = dict(inl.inlined_sites)
         # absorbed helpers: every remaining reference sits in another absorbed helper
         cands = {fq for fq in inl.inlined_sites}
@@ -212,6 +231,55 @@ class Repo:
                     changed = True
         for fq in absorbed:
             by_fq[fq].absorbed = True
+
+    def _sig_resolver(self, fi):
+        """call node -> positional parameter names of the callee (receiver excluded), when the callee
+        can be resolved from the source: package classes / functions, self-methods, super(), a
+        numpy table, and -- for other receivers -- the common parameter prefix of every method of
+        that name in the package"""
+        from .normalize import NUMPY_SIGS
+
+        def params_of(f, drop_self):
+            a = f.raw_node.args
+            ps = [x.arg for x in a.posonlyargs + a.args]
+            if drop_self and ps and ps[0] in ('self', 'cls'):
+                ps = ps[1:]
+            return ps
+
+        def resolve(call):
+            f = call.func
+            if isinstance(f, ast.Name):
+                r = self.resolve_name(fi.module, f.id)
+                if isinstance(r, ClassInfo):
+                    init = self.resolve_method(r, '__init__')
+                    return params_of(init, True) if init is not None else None
+                if isinstance(r, FuncInfo):
+                    return params_of(r, False)
+                return None
+            if isinstance(f, ast.Attribute):
+                if isinstance(f.value, ast.Name) and f.value.id in ('np', 'numpy'):
+                    return NUMPY_SIGS.get(f.attr)
+                if isinstance(f.value, ast.Name) and f.value.id == 'self' and fi.cls is not None:
+                    m = self.resolve_method(fi.cls, f.attr)
+                    if m is not None:
+                        return params_of(m, True)
+                if isinstance(f.value, ast.Call) and isinstance(f.value.func, ast.Name) and \
+                        f.value.func.id == 'super' and fi.cls is not None:
+                    m = self.resolve_method(fi.cls, f.attr, after=fi.cls)
+                    if m is not None:
+                        return params_of(m, True)
+                cands = [c.methods[f.attr] for c in self.all_classes() if f.attr in c.methods]
+                if cands:
+                    lists = [params_of(m, True) for m in cands]
+                    pre = []
+                    for col in zip(*lists):
+                        if len(set(col)) == 1:
+                            pre.append(col[0])
+                        else:
+                            break
+                    return pre or None
+            return None
+        return resolve
 
     # --------------------------------------------------------------- resolution
     def module(self, name):
